@@ -7,6 +7,7 @@ mod sim;
 mod facts;
 mod tamper;
 mod gen_codes;
+mod wf;
 
 use util::{Driver, Report};
 
@@ -52,9 +53,14 @@ fn main() {
         "C18" => props::c18::run(&mut ctx, &mut report),
         "C16" => props::c16::run(&mut ctx, &mut report),
         "C02" | "C03" | "C04" | "C05" | "C06" | "C07" | "C09" | "C10" | "C19" | "C20" => {
+            // C10: the dedicated search runs first; when it finds a malformed trace the generic history run is skipped (a trace that
+            // carries the placeholder generation makes later runs of the same history allocate ~80 GB and abort the process)
+            let mut c10_rule = String::new();
+            if prop == "C10" { props::c10::run(&mut ctx, &mut report); c10_rule = report.rule.clone(); if !report.oracle_failures.is_empty() { return; } }
             props::hist::run_property(&prop, &mut ctx, &mut report);
             // the per-state mergers and FSMs these properties rest on: component-level correspondence with the model
             if matches!(prop.as_str(), "C04" | "C07" | "C09" | "C10") { let rule = report.rule.clone(); props::traceops::run(&mut ctx, &mut report); report.rule = format!("{rule} || plus trace-handler operation sequences (see traceops)"); }
+            if prop == "C10" { report.rule = format!("{} || {c10_rule}", report.rule); }
         }
         "C08" => { props::c08::run(&mut ctx, &mut report); let rule = report.rule.clone(); props::traceops::run(&mut ctx, &mut report); report.rule = rule; }
         "execcorr" => props::execcorr::run(&mut ctx, &mut report),
